@@ -1,6 +1,6 @@
 (* C14 — proofs of the frame conditions (EmitFrameModel.v). *)
 From Coq Require Import ZArith List Bool Lia.
-From Verif Require Import EmitState.EmitStateModel EmitState.EmitFrameModel.
+From Verif Require Import EmitState.EmitStateModel EmitState.EmitFrameModel EmitState.LookupProofs.
 Import ListNotations.
 Local Open Scope Z_scope.
 
@@ -301,3 +301,54 @@ Example sizes_example :
   let '(s', _) := run FAssembler A64 HRecord init_state [CEmbed 3; CAlign 0 4; CInst (EncErr 29); CNewSection 8 5; CInst (EncOk 4 None false 0 0 0)] in
   st_sizes s' = [7; 0].
 Proof. vm_compute. reflexivity. Qed.
+
+(* ---------------------------------------------------------------- round 7: sequence-level lifts *)
+(* over a whole history of calls whose byte counts are not negative, every section keeps existing and never shrinks -
+   however many of the calls fail, throw or succeed *)
+Theorem history_sizes_never_shrink : forall fl a h cs s s' os,
+  (forall c, In c cs -> cmd_nonneg c) -> run fl a h s cs = (s', os) -> sizes_le s s'.
+Proof.
+  intros fl a h cs. induction cs as [| c t IH]; intros s s' os NN H.
+  - cbn [run] in H. inversion H. apply sizes_le_refl.
+  - cbn [run] in H. destruct (step fl a h s c) as [s1 o] eqn:S. destruct (run fl a h s1 t) as [s2 os2] eqn:R. inversion H. subst.
+    eapply sizes_le_trans.
+    + eapply sizes_never_shrink; [apply NN; left; reflexivity | exact S].
+    + eapply IH; [intros c0 Hc; apply NN; right; exact Hc | exact R].
+Qed.
+
+(* ... and labels are never removed by any history *)
+Theorem history_label_count_monotone : forall fl a h cs s s' os,
+  run fl a h s cs = (s', os) -> lenZ (st_labels s) <= lenZ (st_labels s').
+Proof.
+  intros fl a h cs. induction cs as [| c t IH]; intros s s' os H.
+  - cbn [run] in H. inversion H. lia.
+  - cbn [run] in H. destruct (step fl a h s c) as [s1 o] eqn:S. destruct (run fl a h s1 t) as [s2 os2] eqn:R. inversion H. subst.
+    pose proof (label_count_monotone _ _ _ _ _ _ _ S). pose proof (IH _ _ _ R). lia.
+Qed.
+
+(* a history never touches a section in which the emitter never was: if no call of the history switches section, only the
+   current section can change *)
+Theorem history_other_sections_untouched : forall fl a h cs s s' os,
+  (forall c, In c cs -> fp_cur (footprint_of fl c) = false) -> run fl a h s cs = (s', os) -> other_sections_kept s s'.
+Proof.
+  intros fl a h cs. induction cs as [| c t IH]; intros s s' os NC H i Hne Hr.
+  - cbn [run] in H. inversion H. reflexivity.
+  - cbn [run] in H. destruct (step fl a h s c) as [s1 o] eqn:S. destruct (run fl a h s1 t) as [s2 os2] eqn:R. inversion H. subst.
+    pose proof (call_frame _ _ _ _ _ _ _ S) as F. cbv zeta in F. destruct F as [_ [FC _]].
+    assert (C1 : st_cur s1 = st_cur s) by (apply FC; apply NC; left; reflexivity).
+    pose proof (other_sections_untouched _ _ _ _ _ _ _ S i Hne Hr) as E1.
+    assert (Hr1 : 0 <= i < lenZ (st_sizes s1)).
+    { apply LookupProofs.nthZ_some_iff. apply LookupProofs.nthZ_some_iff in Hr. destruct Hr as [v V]. exists v. rewrite E1. exact V. }
+    rewrite <- E1. eapply IH; [intros c0 Hc; apply NC; right; exact Hc | exact R | rewrite C1; exact Hne | exact Hr1].
+Qed.
+
+Example history_lifts_example :
+  let cs := [CNewSection 8 5; CEmbed 3; CNewLabel; CInst (EncErr 26); CAlign 0 8; CBindAtomic 0 0; CEmbed 2] in
+  (forall c, In c cs -> cmd_nonneg c) /\ (forall c, In c cs -> fp_cur (footprint_of FAssembler c) = false) /\
+  (let '(s', _) := run FAssembler X86_64 HThrow init_state cs in (st_sizes s', lenZ (st_labels s'))) = ([10; 0], 1).
+Proof.
+  split; [| split].
+  - intros c H. cbn in H. repeat (destruct H as [H | H]; [subst c; cbn; try exact I; lia |]). contradiction.
+  - intros c H. cbn in H. repeat (destruct H as [H | H]; [subst c; reflexivity |]). contradiction.
+  - vm_compute. reflexivity.
+Qed.
